@@ -224,7 +224,19 @@ func c08HasSortableGroup(ns []c08Node) bool {
 }
 
 // ---- one log call through the public API ----
-var c08EPs = []string{"Info", "Warn", "Error", "Debug", "Trace", "Print", "OK", "Success", "Fail"}
+var c08EPs = []string{"Info", "Warn", "Error", "Debug", "Trace", "Print", "OK", "Success", "Fail", "InfoContext", "WarnContext", "ErrorContext"}
+
+// the Context entry points hand over a context that carries a value of the call under the key the round's loggers have
+// registered (SetContextKeys): the record of a call shows the value of ITS context
+const c08CtxKey = "c08ctx"
+
+func c08Ctx(msg string) context.Context {
+	v := "cv-none"
+	if m := c08MsgRx.FindStringSubmatch(msg); m != nil {
+		v = "cv" + m[1]
+	}
+	return context.WithValue(context.Background(), c08CtxKey, v) //nolint:staticcheck // a string key is what SetContextKeys takes
+}
 
 // the frame test also goes through the two entry points that hand NO attribute list to the formatter: the
 // std-log bridge and WriteThru with nil attributes (their records carry the logger's attributes only)
@@ -232,9 +244,9 @@ var c08FrameEPs = append(append([]string{}, c08EPs...), "Bridge", "ThruNil")
 
 func c08Level(ep string) slog.Level {
 	switch ep {
-	case "Warn":
+	case "Warn", "WarnContext":
 		return slog.WarnLevel
-	case "Error":
+	case "Error", "ErrorContext":
 		return slog.ErrorLevel
 	case "Debug":
 		return slog.DebugLevel
@@ -264,6 +276,12 @@ func c08Call(e *slog.Entry, ep string, msg string, args []any) {
 		slog.NewLogLogger(e, slog.InfoLevel).Print(msg)
 	case "ThruNil":
 		e.WriteThru(context.Background(), slog.InfoLevel, time.Now(), 0, msg, nil)
+	case "InfoContext":
+		e.InfoContext(c08Ctx(msg), msg, args...)
+	case "WarnContext":
+		e.WarnContext(c08Ctx(msg), msg, args...)
+	case "ErrorContext":
+		e.ErrorContext(c08Ctx(msg), msg, args...)
 	case "Warn":
 		e.Warn(msg, args...)
 	case "Error":
